@@ -3,6 +3,8 @@ import utable
 from utable import summarize, is_param
 from sym import Walker, strip, show, mentions
 import fdeval
+from solver import outcome_of
+import iters
 
 EXPLANATION = ("Structural necessary conditions of C06 decided over all CFG paths of Unifiable::unify: constants unify "
                "exactly when their payloads are equal and never with another kind, a complex term or a list; a variable "
@@ -86,15 +88,15 @@ def run(ctx):
     sid = ("field", sp, "LogicVar.id")
     for oc, rel, p in c.paths:
         if oc == "BIND" or oc == "DEREF":
-            looked = [e for e in p.calls() if e["callee"].endswith("::index") and len(e["args"]) == 2 and
-                      is_param(e["args"][0], 3) and strip(e["args"][1]) == sid]
+            looked = [e for e in p.calls() if (e["callee"].endswith("::index") or e["callee"].endswith("::get")) and
+                      len(e["args"]) == 2 and is_param(e["args"][0], 3) and strip(e["args"][1]) == sid]
             if not looked and oc == "DEREF":
                 ctx.ob("R2", "deref-lookup", False, ctx.where(body), "DEREF without a lookup ss[self.id]")
                 break
     else:
         ctx.ob("R2", "deref-lookup", True, ctx.where(body), "the bound/unbound decision reads ss[self.id]")
     # ---- R3 ------------------------------------------------------------
-    w = Walker(body, max_visits=3)
+    w = utable.walker(prog, body, max_visits=3)
     ps = w.paths({sp: frozenset(["LogicVar"]), op: frozenset(["Atom"])})
     ctx.stats["paths_walked"] += len(ps)
     nb = 0
@@ -145,14 +147,14 @@ def run(ctx):
             r3["fresh"] = False
             r3why["fresh"] = "result vector is %s" % show(newv)
             continue
-        # stores into the new vector
+        # stores into the new vector, by index or through an iterator item (`*slot = ..` with slot from iter_mut / zip)
         stores = []
         for e in p.writes():
-            pl = e["place"]
-            if pl[0] == "call" and pl[1].endswith("index_mut") and strip(pl[2][0]) == newv:
-                stores.append((strip(pl[2][1]), e["value"], e))
-        own = [s for s in stores if s[0] == sid]
-        others = [s for s in stores if s[0] != sid]
+            pos = iters.position(e["place"])
+            if pos is not None and pos[0] == newv:
+                stores.append((pos[1], e["value"], e))
+        own = [s for s in stores if s[0] == ("term", sid)]
+        others = [s for s in stores if s[0] != ("term", sid)]
         if len(own) != 1:
             r3["one_store"] = False
             r3why["one_store"] = "%d stores at index self.id (exactly one required)" % len(own)
@@ -162,24 +164,23 @@ def run(ctx):
             if v0 is None or not is_param(v0, 2):
                 r3["value"] = False
                 r3why["value"] = "the new entry holds %s, not a clone of the other term" % show(val)
-        # copy loop: every other store is new[i] = Some(clone(item)) with (i, item) from enumerate(iter(ss)).next()
-        for idx, val, e in others:
+        # copy loop: every other store is new[k] = old[k] (same step of one forward iteration over all of ss)
+        for key, val, e in others:
             okc = False
-            if idx[0] == "field" and idx[2] == "0":
-                tup = idx[1]
-                if tup[0] == "field" and tup[2] == "Some.0" and tup[1][0] == "call" and tup[1][1].endswith("::next"):
-                    it = strip(tup[1][2][0])
-                    if it[0] == "call" and it[1].endswith("::enumerate") and strip(it[2][0])[0] == "call" and \
-                            strip(it[2][0])[1].endswith("::iter") and is_param(strip(it[2][0])[2][0], 3):
-                        v0 = strip(dict(val[3]).get("0")) if val[0] == "agg" and val[2] == "Some" else None
-                        if v0 is not None and v0 == ("field", ("field", tup, "1"), "Some.0"):
-                            okc = True
+            v = strip(val)
+            src = strip(dict(v[3]).get("0")) if v[0] == "agg" and v[2] == "Some" and v[3] else v
+            if src[0] == "field" and src[2] == "Some.0":
+                src = strip(src[1])
+            sp_ = iters.position(src)
+            if key[0] == "step" and key[2] == 0 and sp_ is not None and is_param(sp_[0], 3) and sp_[1] == key:
+                okc = True
             if not okc:
                 r3["copy"] = False
-                r3why["copy"] = "store new[%s] = %s is not a copy of the old entry at the same index" % (show(idx), show(val))
+                r3why["copy"] = "store new[%s] = %s is not a copy of the old entry at the same index" % (show(key)[:60], show(val)[:80])
         # the loop must exist on paths that iterate (checked via presence of the iterator on every BIND path)
         if copy_ok is None:
-            has_iter = any(e["callee"].endswith("::enumerate") for e in p.calls())
+            has_iter = any(e["callee"].endswith("::next") and ("elem", ssp, 0) in iters.leaves(iters.layout(e["args"][0]))
+                           for e in p.calls())
             if not has_iter:
                 r3["copy"] = False
                 r3why["copy"] = "no copy of the old entries (no iteration over ss) before the new set is returned"
@@ -229,12 +230,10 @@ def run(ctx):
             if p.end == "return" and p.ret[0] == "agg" and p.ret[2] == "Some":
                 pl = strip(dict(p.ret[3]).get("0"))
                 running = ("field", ucalls[-1]["result"], "Some.0") if ucalls else ssp
-                skip0 = any(e["k"] == "branch" and e["value"] is True and e["cond"][0] == "call" and e["cond"][1].endswith("::eq")
-                            and any(isinstance(a, tuple) and a[0] == "agg" and a[2] == "Anonymous" for a in e["cond"][2])
-                            and any(isinstance(a, tuple) and mentions(a, lambda t: t[0] == "call" and t[1].endswith("::index")
-                                                                     and t[2][1][0] == "const" and t[2][1][3] == 0)
-                                    for a in e["cond"][2]) for e in p.events)
-                iterated = any(e["k"] == "call" and e["callee"].endswith("::index") for e in p.events) or kind == "SLinkedList"
+                skip0 = any(utable.functor_position(x) for x in utable.anon_elements(p))
+                iterated = any(e["k"] == "call" and (e["callee"].endswith("::index") or
+                                                     (e["callee"].endswith("::next") and outcome_of(p, e["result"]) == "Some"))
+                               for e in p.events) or kind == "SLinkedList"
                 if kind == "SComplex" and (skip0 or not iterated):
                     pass
                 elif pl != running:
